@@ -15,6 +15,19 @@ impl Check for Book {
         h.f(c.p).fs(&c.xs);
     }
     fn test(&self, c: &QStream, o: &mut Obs) -> TestResult {
+        // Known finding K2: when the spread of the data (max - min) exceeds f64::MAX the
+        // marker-height differences of the P-square formulas overflow and the estimate
+        // becomes +-inf. Failures in that regime carry their own signature.
+        let (lo, hi) = c.xs.iter().fold((f64::INFINITY, f64::NEG_INFINITY), |(l, h), &x| (l.min(x), h.max(x)));
+        let spread_overflow = c.xs.len() >= 2 && (hi - lo).is_infinite();
+        match self.test_inner(c, o) {
+            Err(f) if spread_overflow && f.sig.starts_with("quantile:") => Err(Fail { sig: "quantile:spread-overflow".into(), msg: format!("{} (the spread max - min of the stream overflows f64)", f.msg) }),
+            r => r,
+        }
+    }
+}
+impl Book {
+    fn test_inner(&self, c: &QStream, o: &mut Obs) -> TestResult {
         if !(c.p >= 0.0 && c.p <= 1.0) || c.xs.iter().any(|x| !x.is_finite()) {
             o.discarded = Some("p outside [0,1] or non-finite observation");
             return Ok(());
@@ -146,10 +159,18 @@ pub fn run(cx: &Ctx) {
     cx.label("generated");
     let max_len = cx.by(2000, 20000);
     cx.run_pt(&Book, cx.by(600, 12000), cx.workers, move || stream_strategy(max_len), "random streams of 10 kinds, length 5..=20000 (quick 2000)");
-    let short = || (super::c05::p_strategy(), proptest::collection::vec(-100.0..100.0f64, 0..8)).prop_map(|(p, xs)| QStream { p, xs });
+    let short = || {
+        (super::c05::p_strategy(), proptest::collection::vec(prop_oneof![4 => -100.0..100.0f64, 1 => proptest::sample::select(vec![f64::MAX, f64::MIN, 1e308, 1.5e308, -1e308, -1.7e308, 5e-324, -5e-324, 0.0]), 1 => (-300.0..308.0f64, any::<bool>()).prop_map(|(e, s)| if s { -10f64.powf(e) } else { 10f64.powf(e) })], 0..12)).prop_map(|(p, xs)| QStream { p, xs })
+    };
     cx.label("generated-short");
-    cx.run_pt(&Book, cx.by(300, 3000), cx.workers, short, "streams of length 0..7");
+    cx.run_pt(&Book, cx.by(300, 3000), cx.workers, short, "streams of length 0..11 incl. extreme magnitudes (up to f64::MAX, subnormals)");
     cx.label("fixed");
+    cx.run_list(&Book, vec![
+        // reproducer of known finding K2 (see KNOWN_FINDINGS.txt)
+        QStream { p: 0.5, xs: vec![-f64::MAX, f64::MAX, 0.0, 0.0, 0.0, -71.0, -62.0, 0.0, 0.0, 0.0, 0.0] },
+        QStream { p: 0.5, xs: vec![1e308, 1.5e308] },
+        QStream { p: 0.25, xs: vec![f64::MAX, f64::MAX, f64::MAX, f64::MAX] },
+    ], "K2 reproducer; huge same-sign observations in the <5 phase");
     let mut ps: Vec<PArg> = [0.0, -0.0, 1.0, 0.5, 5e-324, f64::MIN_POSITIVE, 1.0 - f64::EPSILON / 2.0, -5e-324, -1e-300, 1.0 + f64::EPSILON, 2.0, -1.0, f64::INFINITY, f64::NEG_INFINITY, f64::NAN, 1e300, -1e300].iter().map(|&p| PArg { p }).collect();
     ps.push(PArg { p: f64::from_bits(0x7ff8_0000_0000_0001) });
     cx.run_list(&NewPanics, ps, "boundary and invalid constructor arguments");
